@@ -86,6 +86,8 @@ pub struct Opened {
 	pub looks: Vec<Look>,
 	/// bulk reads through `get_bbox_tile_stream` (oracle only; not part of the protocol answer)
 	pub streams: Vec<StreamRes>,
+	/// a coordinate whose second lookup (same reader, after the streams) differs from the first one
+	pub relook_mismatch: Option<Coord>,
 }
 #[derive(Clone, Debug)]
 pub struct StreamRes {
@@ -192,6 +194,18 @@ pub fn interrogate(rt: &Runtime, reader: &dyn TilesReaderTrait, qs: &[Coord]) ->
 		.collect();
 	let looks: Vec<Look> = looks;
 	let cover = cover_of(&p.bbox_pyramid);
+	let lookup_once = |q: &Coord| -> Look {
+		let r = catch(|| match TileCoord3::new(q.1, q.2, q.0) {
+			Ok(c) => rt.block_on(reader.get_tile_data(&c)).map_err(|e| e.to_string()),
+			Err(e) => Err(e.to_string()),
+		});
+		match r {
+			Ok(Ok(None)) => Look::None,
+			Ok(Ok(Some(b))) => Look::Some(b.into_vec()),
+			Ok(Err(_)) => Look::Err,
+			Err(_) => Look::Panic,
+		}
+	};
 	let found: Vec<Coord> = qs.iter().zip(&looks).filter(|(_, l)| matches!(l, Look::Some(_))).map(|(q, _)| *q).collect();
 	let streams = stream_boxes(reader.get_container_name(), &cover, &found)
 		.into_iter()
@@ -204,7 +218,9 @@ pub fn interrogate(rt: &Runtime, reader: &dyn TilesReaderTrait, qs: &[Coord]) ->
 			StreamRes { z, bx: b, got }
 		})
 		.collect();
-	Opened { fmt: fmt_name(p.tile_format), comp: comp_name(p.tile_compression), cover, looks, streams }
+	// the same reader object used again after the bulk reads (index / leaf caches are warm now): same answers
+	let relook_mismatch = qs.iter().zip(&looks).rev().step_by(3).take(25).find(|(q, l)| &lookup_once(q) != *l).map(|(q, _)| *q);
+	Opened { fmt: fmt_name(p.tile_format), comp: comp_name(p.tile_compression), cover, looks, streams, relook_mismatch }
 }
 
 fn with_reader<R: TilesReaderTrait>(rt: &Runtime, qs: &[Coord], open: impl FnOnce() -> anyhow::Result<R>) -> OpenRes {
@@ -343,6 +359,9 @@ pub fn judge(intent: &Intent, qs: &[Coord], res: &OpenRes) -> Option<(&'static s
 			Some(b) if c.0 >= b.0 && c.1 >= b.1 && c.2 <= b.2 && c.3 <= b.3 => {}
 			b => return Some(("coverage", format!("level {z}: advertised {c:?} exceeds the encoded/declared box {b:?}"))),
 		}
+	}
+	if let Some(q) = o.relook_mismatch {
+		return Some(("reuse-inconsistent", format!("get_tile_data{q:?} answers differently when the same reader is asked again after the bulk reads")));
 	}
 	judge_streams(&intent.tiles, &o.streams)
 }
@@ -612,6 +631,7 @@ pub fn gen_vt_choices(rng: &mut Rng) -> VtChoices {
 		blob_order: if plain { 0 } else { rng.below(4) as u8 },
 		share: rng.chance(1, 2),
 		max_gap: if !plain && rng.chance(1, 3) { rng.range(1, 9) as usize } else { 0 },
+		exact_gap: 0,
 		bbox: [-1800000000 + rng.below(1000) as i32, -850511287, 1800000000, 850511287 - rng.below(1000) as i32],
 	}
 }
@@ -630,7 +650,7 @@ pub fn vt_intent(bytes: &[u8], fmt: Fmt, comp: Comp, tiles: &TileMap, blocks: &[
 pub fn build_v(rt: &Runtime, tiles: &TileMap, ch: &VtChoices, seed: u64) -> Built {
 	let mut r = Rng(seed);
 	let enc = encode_versatiles(tiles, ch, &mut r);
-	let qs = queries(tiles, seed, 24);
+	let qs = queries(tiles, seed, 31);
 	let res = run_v(rt, &enc.bytes, &qs);
 	let line = format!("C16v {} {} {}", hexs(&enc.bytes), tab_str(&enc.tab), queries_str(&qs));
 	let mut fr = vec![];
@@ -721,7 +741,7 @@ pub fn gen_pm_choices(rng: &mut Rng) -> PmChoices {
 pub fn build_p(rt: &Runtime, tiles: &TileMap, ch: &PmChoices, seed: u64) -> Built {
 	let mut r = Rng(seed);
 	let enc = encode_pmtiles(tiles, ch, &mut r);
-	let qs = queries(tiles, seed, 24);
+	let qs = queries(tiles, seed, 31);
 	let res = run_p(rt, &enc.bytes, &qs);
 	let line = format!("C16p {} {} {}", hexs(&enc.bytes), tab_str(&enc.tab), queries_str(&qs));
 	let mut fr = vec![];
@@ -804,7 +824,7 @@ pub fn build_m(rt: &Runtime, scratch: &mut Scratch, tiles: &TileMap, ch: &MbChoi
 	let rows = tiles_to_rows(tiles);
 	let path = scratch.fresh(".mbtiles");
 	encode_mbtiles(&path, &rows, ch, &mut r).unwrap();
-	let qs = queries(tiles, seed, 24);
+	let qs = queries(tiles, seed, 31);
 	let sc = selfcheck(decode_mbtiles(&path), Some(ch.fmt), Some(mb_comp(ch.fmt)), tiles);
 	let res = run_m(rt, &path, &qs);
 	rm(&path);
@@ -836,7 +856,7 @@ pub fn build_m(rt: &Runtime, scratch: &mut Scratch, tiles: &TileMap, ch: &MbChoi
 pub struct NameChoices {
 	pub fmt: Fmt,
 	pub comp: Comp,
-	/// 0 = no "./", 1 = all members, 2 = mixed
+	/// 0 = no "./", 1 = all members, 2 = mixed, 3 = "./" repeated 55 times (names > 100 bytes: ustar prefix field)
 	pub dot_prefix: u8,
 	pub dir_members: bool,
 	pub prefix_field: bool,
@@ -946,10 +966,10 @@ pub fn build_t(rt: &Runtime, scratch: &mut Scratch, tiles: &TileMap, ch: &NameCh
 	for (name, data) in &files {
 		let dot = match ch.dot_prefix {
 			0 => false,
-			1 => true,
+			1 | 3 => true,
 			_ => r.chance(1, 2),
 		};
-		let full = if dot { format!("./{name}") } else { name.clone() };
+		let full = if ch.dot_prefix == 3 { format!("{}{name}", "./".repeat(55)) } else if dot { format!("./{name}") } else { name.clone() };
 		if ch.dir_members {
 			// directory members for the parents, once each, before the file
 			let parts: Vec<&str> = full.split('/').collect();
@@ -967,8 +987,8 @@ pub fn build_t(rt: &Runtime, scratch: &mut Scratch, tiles: &TileMap, ch: &NameCh
 	let bytes = encode_tar(&members, ch.extra_zero_blocks).unwrap();
 	let path = scratch.fresh(".tar");
 	std::fs::write(&path, &bytes).unwrap();
-	let sc = if ch.stray { None } else { selfcheck(decode_tar(&bytes), Some(ch.fmt), Some(ch.comp), tiles) };
-	let qs = queries(tiles, seed, 24);
+	let sc = if ch.stray || ch.dot_prefix == 3 { None } else { selfcheck(decode_tar(&bytes), Some(ch.fmt), Some(ch.comp), tiles) };
+	let qs = queries(tiles, seed, 31);
 	let res = run_t(rt, &path, &qs);
 	rm(&path);
 	let mut intent = Intent::from_tiles("tar", ch.fmt, ch.comp, tiles);
@@ -981,7 +1001,7 @@ pub fn build_d(rt: &Runtime, scratch: &mut Scratch, tiles: &TileMap, ch: &NameCh
 	let path = scratch.fresh("");
 	write_dir(&path, &files).unwrap();
 	let sc = if ch.stray { None } else { selfcheck(decode_dir(&path), Some(ch.fmt), Some(ch.comp), tiles) };
-	let qs = queries(tiles, seed, 24);
+	let qs = queries(tiles, seed, 31);
 	let res = run_d(rt, &path, &qs);
 	rm(&path);
 	let intent = Intent::from_tiles("directory", ch.fmt, ch.comp, tiles);
@@ -1959,6 +1979,99 @@ fn codec_case(ctx: &mut Ctx, line: &str) {
 	}
 }
 
+/// hand-made tile sets: (name, tiles)
+pub fn special_sets() -> Vec<(String, TileMap)> {
+	let mut v: Vec<(String, TileMap)> = vec![];
+	// extreme coordinates: zoom 0, 1, 30, 31 with the four corners (and an inner tile)
+	for z in [0u8, 1, 30, 31] {
+		let m = ((1u64 << z) - 1) as u32;
+		let mut t = TileMap::new();
+		for (i, (x, y)) in [(0, 0), (m, m), (0, m), (m, 0), (m / 2, m / 2)].into_iter().enumerate() {
+			t.insert((z, x, y), vec![z, i as u8, 7]);
+		}
+		v.push((format!("extreme_z{z}"), t));
+	}
+	// zoom 0 together with zoom 31 (largest zoom span)
+	let mut t = TileMap::new();
+	t.insert((0, 0, 0), vec![1]);
+	t.insert((31, 0x7fff_ffff, 0), vec![2, 2]);
+	t.insert((31, 0, 0x7fff_ffff), vec![3, 3, 3]);
+	v.push(("extreme_span".into(), t));
+	// payload classes: empty, one byte, duplicates, tar block sizes, de-dup threshold, larger than any small buffer
+	let mut t = TileMap::new();
+	let sizes = [0usize, 1, 1, 511, 512, 513, 999, 1000, 1001, 70_000, 70_000, 5];
+	for (i, n) in sizes.iter().enumerate() {
+		t.insert((9, 254 + (i as u32 % 4), 255 + (i as u32 / 4)), (0..*n).map(|k| (k % 251) as u8).collect());
+	}
+	v.push(("payload_classes".into(), t));
+	// long runs: two complete levels with one payload (one run across the level boundary) and one odd tile
+	let mut t = TileMap::new();
+	for z in [3u8, 4] {
+		for x in 0..(1u32 << z) {
+			for y in 0..(1u32 << z) {
+				t.insert((z, x, y), vec![0xAB, 0xCD]);
+			}
+		}
+	}
+	t.insert((4, 5, 5), vec![9]);
+	v.push(("long_runs".into(), t));
+	// versatiles chunk rule: gaps of 32 KiB ± 1 between the blobs of one block
+	for g in [32767usize, 32768, 32769] {
+		let mut t = TileMap::new();
+		for i in 0..4u32 {
+			t.insert((10, 600 + i, 300 + (i % 2)), vec![i as u8; 3 + i as usize]);
+		}
+		v.push((format!("gap{g}"), t));
+	}
+	v
+}
+
+/// class 2: the same container cut at several offsets
+fn truncation_cases(ctx: &mut Ctx, b: &Built, rng: &mut Rng) {
+	let t: Vec<&str> = b.line.splitn(3, ' ').collect();
+	if t.len() != 3 || b.line.len() > MAX_LINE || b.intent.comp.is_none() {
+		return;
+	}
+	let Some(bytes) = unhexs(t[1]) else { return };
+	let n = bytes.len();
+	let mut cuts: Vec<usize> = vec![0, 1, 65, 66, 67, 126, 127, 128, n / 3, n / 2, n - n / 4, n.saturating_sub(34), n.saturating_sub(33), n.saturating_sub(1)];
+	cuts.push(rng.below(n as u64 + 1) as usize);
+	cuts.retain(|c| *c < n);
+	cuts.sort();
+	cuts.dedup();
+	for c in cuts {
+		if !rng.chance(1, 2) {
+			continue;
+		}
+		let cut = &bytes[..c];
+		let res = if t[0] == "C16v" { run_v(&ctx.rt, cut, &b.qs) } else { run_p(&ctx.rt, cut, &b.qs) };
+		let line = format!("{} {} {}", t[0], hexs(cut), t[2]);
+		ctx.out.count("truncated_containers");
+		ctx.out.count(match &res {
+			OpenRes::Ok(_) => "truncated_open_ok",
+			OpenRes::Err(_) => "truncated_open_err",
+			OpenRes::Panic(_) => "truncated_open_panic",
+		});
+		ctx.out.case(&line, &answer(&res), matches!(res, OpenRes::Ok(_)));
+		let mut bad: Option<String> = None;
+		if let OpenRes::Ok(o) = &res {
+			for (q, l) in b.qs.iter().zip(&o.looks) {
+				match l {
+					Look::Some(got) if b.intent.tiles.get(q) != Some(got) => bad = Some(format!("get_tile_data{q:?} returns {} bytes that are not the encoded payload", got.len())),
+					Look::Panic => bad = Some(format!("get_tile_data{q:?} panicked")),
+					_ => {}
+				}
+			}
+		}
+		ctx.out.oracle(
+			bad.is_none(),
+			&format!("C16 {} truncated: {}", b.intent.container, bad.clone().unwrap_or_default()),
+			json!({"kind": "truncated-wrong-bytes", "container": b.intent.container}),
+			json!({"case": trunc(&line, 100_000), "cut": c, "of": n}),
+		);
+	}
+}
+
 pub fn run(args: &Args) {
 	if std::env::var_os("VTH_LOUD").is_none() {
 		quiet_panics();
@@ -2024,6 +2137,49 @@ pub fn run(args: &Args) {
 				}
 			}
 		}
+	}
+	// hand-made tile sets (checklist classes 1, 3, 8): extreme coordinates, payload classes, long runs, chunk gaps
+	for (k, (name, tiles)) in special_sets().into_iter().enumerate() {
+		for rep in 0..args.n(2, 6) {
+			let seed = rng.next();
+			ctx.out.count(&format!("special_{name}"));
+			let mut chv = gen_vt_choices(&mut rng);
+			if name.starts_with("gap") {
+				chv.exact_gap = name[3..].parse().unwrap();
+				chv.share = false;
+			}
+			let b = build_v(&ctx.rt, &tiles, &chv, seed);
+			emit(&mut ctx, "C16", &tiles, b, &mut |c: &mut Ctx, t: &TileMap| build_v(&c.rt, t, &chv, seed));
+			if name.starts_with("gap") {
+				continue;
+			}
+			let chp = gen_pm_choices(&mut rng);
+			let b = build_p(&ctx.rt, &tiles, &chp, seed);
+			emit(&mut ctx, "C16", &tiles, b, &mut |c: &mut Ctx, t: &TileMap| build_p(&c.rt, t, &chp, seed));
+			if rep == 0 {
+				let t2: TileMap = if tiles.values().all(|p| p.is_empty()) { tiles.clone().into_iter().map(|(c, _)| (c, vec![1])).collect() } else { tiles.clone() };
+				let chm = gen_mb_choices(&mut rng);
+				let b = build_m(&ctx.rt, &mut ctx.scratch, &t2, &chm, seed);
+				emit(&mut ctx, "C16", &t2, b, &mut |c: &mut Ctx, t: &TileMap| build_m(&c.rt, &mut c.scratch, t, &chm, seed));
+				let mut cht = gen_name_choices(&mut rng, true);
+				if k % 2 == 0 {
+					cht.dot_prefix = 3;
+				}
+				let b = build_t(&ctx.rt, &mut ctx.scratch, &tiles, &cht, seed);
+				emit(&mut ctx, "C16", &tiles, b, &mut |c: &mut Ctx, t: &TileMap| build_t(&c.rt, &mut c.scratch, t, &cht, seed));
+				let chd = gen_name_choices(&mut rng, false);
+				let b = build_d(&ctx.rt, &mut ctx.scratch, &tiles, &chd, seed);
+				emit(&mut ctx, "C16", &tiles, b, &mut |c: &mut Ctx, t: &TileMap| build_d(&c.rt, &mut c.scratch, t, &chd, seed));
+			}
+		}
+	}
+	// truncated containers (class 2): cut valid versatiles / pmtiles files at structural and arbitrary offsets: the reader
+	// may fail (open or lookup), but must never panic in a lookup and never return bytes other than the encoded payload
+	for _ in 0..args.n(120, 600) {
+		let seed = rng.next();
+		let tiles = gen_tiles(&mut rng, false);
+		let b = if rng.chance(1, 2) { build_v(&ctx.rt, &tiles, &gen_vt_choices(&mut rng), seed) } else { build_p(&ctx.rt, &tiles, &gen_pm_choices(&mut rng), seed) };
+		truncation_cases(&mut ctx, &b, &mut rng);
 	}
 	// codec streams
 	let m = args.n(800, 6000);
